@@ -40,6 +40,10 @@ def oracle(desc, op, exact):
     pa = P.probe(op, cache=False)
     T = P.lib('transpose', lambda: op.T)
     tol = 0.0 if exact else P.tol_for(*P.op_dtypes(op))
+    import numpy as _np
+
+    if any(_np.dtype(d) == _np.float16 for d in P.op_dtypes(op)):
+        tol = 2e-3   # the transposed operator has to return float16 values: equality holds up to that dtype's rounding
     if not P.same_struct(T.in_structure(), op.out_structure()) or not P.same_struct(T.out_structure(), op.in_structure()):
         probs.append(('transpose-structure', f'A: {op.in_structure()} -> {op.out_structure()} but A.T: {T.in_structure()} -> {T.out_structure()}'))
         return probs, True
